@@ -127,6 +127,7 @@ func genG12(repo string, w *Out) error {
 		"handleTLSCertificateError": "tls_cert", "handleTLSECHRejectionError": "tls_ech", "handleTLSAlertError": "tls_alert",
 		"handleMartianErrorStatus": "status", "handleAuthenticationError": "auth", "handleDenyError": "deny",
 		"handleProhibitedError": "prohibited", "handleContextCancelationError": "canceled", "handleStatusText": "status_text",
+		"handleTimeoutError": "timeout",
 	}
 	names := make([]string, 0, len(known))
 	for k := range known {
@@ -139,6 +140,12 @@ func genG12(repo string, w *Out) error {
 		}
 	}
 	for _, h := range names {
+		if _, ferr := ef.Func(h); ferr != nil && h == "handleTimeoutError" {
+			// shape of the source before the generic time-out handler existed
+			w.DefStrList("skel_"+h, nil)
+			w.DefN("code_timeout", 0)
+			continue
+		}
 		s, err := emit("skel_"+h, "http_proxy_errors.go", h)
 		if err != nil {
 			return err
